@@ -317,6 +317,14 @@ func genRT(pr rtProfile) func(r *rand.Rand, w *W) [][]string {
 				}
 				obs = append(obs, []string{"serve", "OPTIONS", "*"})
 			}
+			if pr.urls && len(pool) > 0 {
+				// strict URL of pool patterns after every mutation (a removed or cleaned route must stop building)
+				for k := 0; k < 2; k++ {
+					p := pick(r, pool)
+					_, kv := witness(r, p)
+					obs = append(obs, append([]string{"url", "r", "1", p}, list(kv...)...))
+				}
+			}
 			ops = append(ops, obs...)
 			lastObs = obs
 		}
